@@ -22,7 +22,17 @@ F6_FP = "krt:many:key-moves-between-parents:new-parent-first"
 F6_WHAT = ("krt manyCollection loses an output key that moves to another parent input when the new parent is "
            "applied before the old parent released it: the old parent's later diff deletes the live output "
            "(contents and stream differ from the transformation of the current inputs only on the moved keys)")
+F10_FP = "krt:join:same-key-changes-in-two-collections:events-converted-from-live-state"
+F10_WHAT = ("krt JoinCollection converts and drops the events of one sub-collection by looking at the live contents of the "
+            "other sub-collections instead of what it has delivered: when the same key changes in two joined collections "
+            "without quiescence in between (or is present in two collections when the join starts) subscribers get a duplicate "
+            "Add, an Update/Delete of an unknown key or a wrong Old (List/GetKey stay correct)")
 U_OPS = ("ulist", "ulookup", "ustream")
+FLAGS = ("f6", "jr")
+
+
+def known_class(stream):
+    return (F10_FP, F10_WHAT) if stream.startswith("join") else (F6_FP, F6_WHAT)
 
 
 def run_pair(ctx, stream, ops_path, tag):
@@ -58,7 +68,7 @@ def scan(ctx, ops_path, impl_path, model_path):
     cases = split_cases(ops)
     for (s, e) in cases:
         head = ops[s].split()
-        flagged = head[:1] == ["case"] and "f6" in head[4:]
+        flagged = head[:1] == ["case"] and any(f in head[4:] for f in FLAGS)
         bad_u, bad_real = [], None
         for i in range(s, e):
             a = impl[i] if i < len(impl) else "<missing: harness stopped>"
@@ -156,7 +166,8 @@ def run_stream(ctx, stream, ncases):
         if f6_cases:
             st["known_f6_cases"] += len(f6_cases)
             case_lines, bad = f6_cases[0]
-            ctx.violation(F6_FP, F6_WHAT,
+            fp, what = known_class(stream)
+            ctx.violation(fp, what,
                           {"stream": stream, "ops": case_lines, "source": tag,
                            "differences": [{"op": case_lines[i], "implementation": a, "specification": b}
                                            for (i, a, b) in bad[:6]]}, True)
@@ -178,7 +189,8 @@ def run_stream(ctx, stream, ncases):
                                      "trace": ctx.read_lines(impl2 + ".trace")[:200] if ok2 and real2 else None}, True)
     ctx.log("stream %s: %d cases, %d lines, %s%s" % (
         stream, st["cases"], st["ops"], "agree" if st["agree"] else "DIFFER",
-        (" (known F6 class reproduced in %d flagged cases)" % st["known_f6_cases"]) if st["known_f6_cases"] else ""))
+        (" (known class %s reproduced in %d flagged cases)" % (known_class(stream)[0], st["known_f6_cases"]))
+        if st["known_f6_cases"] else ""))
 
 
 def run_oracle(ctx, stream):
@@ -231,6 +243,8 @@ def run(ctx):
         return
     run_stream(ctx, "krt", ctx.n(2500, 60000))
     run_stream(ctx, "krtf6", ctx.n(400, 8000))
+    run_stream(ctx, "join", ctx.n(1200, 30000))
+    run_stream(ctx, "joinr", ctx.n(300, 6000))
     for stream in ("krt", "krtf6"):
         run_oracle(ctx, stream)
 
@@ -256,7 +270,8 @@ def replay(ctx, path):
     nc, nl, f6_cases, real = scan(ctx, p, impl, model)
     ctx.account(stream, p, impl)
     if f6_cases:
-        ctx.violation(F6_FP, F6_WHAT, {"stream": stream, "ops": ops}, True)
+        fp, what = known_class(stream)
+        ctx.violation(fp, what, {"stream": stream, "ops": ops}, True)
     for (case_lines, idx, a, b) in real[:1]:
         fp, what = classify(case_lines[idx], a, b)
         ctx.violation(fp, what, {"stream": stream, "ops": case_lines, "first_difference_at_op": idx,
